@@ -49,6 +49,14 @@ def c13_cases(res, scratch, tier, seed, focus):
         st = g3.st(n)
         if len(st["frames"]) >= 2:
             seqs.append((frames_of(st), expect_of(st), "3f"))
+    # every sequence of <= 3 control frames with an empty or a 3-byte payload (a payload must never leak into the answer to
+    # the next control frame), also with one data frame in front
+    gc, rc3 = graph.tlc_graph(scratch, "WsCodec", WSCFG % dict(mf=3, ops="1, 9, 10", rsvs="0", lens="0, 3", pls='"ascii"'), timeout=900)
+    res.add_model("wscodec-3frames-control-payloads", rc3)
+    for n in gc.state:
+        st = gc.st(n)
+        if len(st["frames"]) >= 2:
+            seqs.append((frames_of(st), expect_of(st), "3c"))
     num = 2500 if tier == "quick" else 30000
     behs, _ = common.tlc_simulate(scratch, "WsCodec", cfg_text=WSCFG % dict(mf=4, ops="0, 1, 2, 3, 8, 9, 10, 11", rsvs="0, 2",
                                                                            lens="0, 1, 2, 5, 125, 126", pls=""),
@@ -135,6 +143,17 @@ def c15_cases(tier, seed, focus):
                 cases.append({"id": "L%d-inflate%d-cut%d" % (L, inf, cut), "mode": "C15", "focus": focus, "limit": L, "kind": "inflate",
                               "inflate": inf, "compress": True, "cut": cut, "seed": rnd.randrange(1 << 30), "maxframe": 0,
                               "shape": "inflate" + ("=L" if inf == L else "")})
+        # the deflate stream ends with a BFINAL block instead of a sync flush
+        for inf in (L, L + 1, L + 2):
+            cases.append({"id": "L%d-inflatefinal%d" % (L, inf), "mode": "C15", "focus": focus, "limit": L, "kind": "inflate", "final": True,
+                          "inflate": inf, "compress": True, "cut": 0, "seed": rnd.randrange(1 << 30), "maxframe": 0,
+                          "shape": "inflatefinal" + ("=L" if inf == L else "")})
+        # compressed data whose wire size alone exceeds the limit, in one frame and in three fragments
+        for wire in (L + 1, 3 * L, 12 * L):
+            for fr in ([1], [1, 1, 1]):
+                cases.append({"id": "L%d-zwire%d-f%d" % (L, wire, len(fr)), "mode": "C15", "focus": focus, "limit": L, "kind": "zwire",
+                              "inflate": wire, "frag": fr, "compress": True, "cut": 0, "seed": rnd.randrange(1 << 30), "maxframe": 0,
+                              "shape": "zwire"})
         # a control frame between the fragments must not reset the accumulated size
         for fr in ([L // 2 + 100, L // 2 + 100], [L - 1, 2], [L // 2, L // 2]):
             for cut in (0, -1):
@@ -149,6 +168,10 @@ def c15_cases(tier, seed, focus):
                               "kind": "ctlrecv", "frag": [ln], "frames": [{"fin": True, "rsv": 0, "op": op, "len": ln, "pl": "ascii", "enc": enc}],
                               "cut": 0, "seed": 1, "maxframe": 0, "shape": "ctlrecv"})
     cases.append({"id": "ctlsend", "mode": "C15", "focus": focus, "limit": 1000, "kind": "ctlsend", "maxframe": 0, "shape": "ctlsend"})
+    for rl in (1024, 65536):
+        # the header declares 32 MiB, the message limit is off / far above the read limit: the reservation stays small
+        cases.append({"id": "readlimit%d-bigdecl" % rl, "mode": "C15", "focus": focus, "limit": 1 << 30, "kind": "readlimit", "inflate": 32 << 20,
+                      "readlimit": rl, "cut": 14, "seed": 1, "maxframe": 0, "shape": "readlimit"})
     for rl in (64, 1024):
         for cut in (1, 7, 50):
             cases.append({"id": "readlimit%d-cut%d" % (rl, cut), "mode": "C15", "focus": focus, "limit": 1 << 20, "kind": "readlimit",
